@@ -294,17 +294,29 @@ def _site_text(code):
     return t.replace(" ", "_").replace('"', "")
 
 
-def _acq_pass(lines, suffixes):
-    """Inserts `verifStep("A:<func>#<n>:<text>")` before every mutex acquisition found by text. -> (new lines, [sites])"""
+def _acq_pass(lines, suffixes, contains=(), releases=()):
+    """Inserts `verifStep("A:<func>#<n>:<text>")` before every mutex acquisition found by text. -> (new lines, [sites])
+    Additive options (layer 2): `contains` - a line that CONTAINS one of these texts is a site too (calls of time.Timer methods:
+    `if t.Stop() {`); `releases` - suffixes of mutex releases: `verifStep("R:<text>")` goes AFTER a release statement, and for a
+    deferred release `defer verifStep("R:<text>")` goes BEFORE the defer (deferred calls run last-in first-out: the unlock, then the
+    note), so that the harness knows which mutexes a goroutine parked at a site holds."""
     sites = []
     inserts = []
     for name, lo, hi in _funcs(lines):
         n = 0
         for i in range(lo + 1, hi + 1):
             t = _code(lines[i])
-            if not t or t.startswith("defer ") or t.startswith("go ") or "verifStep(" in t:
+            if not t or "verifStep(" in t:
                 continue
-            if any(t.endswith(sfx) for sfx in suffixes):
+            if releases and any(t.endswith(sfx) for sfx in releases):
+                if t.startswith("defer "):
+                    inserts.append((i, _indent(lines[i]) + 'defer verifStep("R:%s")' % _site_text(t[len("defer "):].strip())))
+                elif not t.startswith("go ") and not t.startswith("}"):
+                    inserts.append((i + 1, _indent(lines[i]) + 'verifStep("R:%s")' % _site_text(t)))
+                continue
+            if t.startswith("defer ") or t.startswith("go "):
+                continue
+            if any(t.endswith(sfx) for sfx in suffixes) or (contains and not t.startswith("}") and not t.startswith("case ") and any(c in t for c in contains)):
                 n += 1
                 site = "%s#%d:%s" % (name, n, _site_text(t))
                 sites.append(site)
@@ -613,7 +625,8 @@ def instrument(table_path, workdir, repo):
             out["log"].append("acquisitions: %s unreadable: %s" % (rel, ex))
             continue
         try:
-            lines, sites = _acq_pass(lines, acq.get("suffixes", [".Lock()", ".RLock()"]))
+            lines, sites = _acq_pass(lines, acq.get("suffixes", [".Lock()", ".RLock()"]), tuple(acq.get("contains", ())), tuple(acq.get("releases", ())))
+            out.setdefault("acq_sites_by_file", {})[rel] = list(sites)
         except Exception as ex:  # noqa
             out["log"].append("acquisitions: %s: %r" % (rel, ex))
             continue
